@@ -384,11 +384,18 @@ def loop_traces(ctx, pid, insts, consts, name="clt"):
     env.pop("NUMBA_CACHE_DIR", None)
     r = subprocess.run(["/venv/bin/python", "-m", "vt.looptrace_constrain", ip, op], env=env, capture_output=True,
                        text=True, cwd=harness.VERIF, timeout=1800)
+    if r.returncode == 3:
+        # loop heads / locals not found, or arithmetic off Constrain's integer lattice: the kernel was rewritten.
+        # Conformance drift, not a verdict on the properties (the replay legs judge what the kernel returns).
+        last = (r.stderr.strip().splitlines() or ["?"])[-1]
+        ctx.count("loop_head_recorder_drift")
+        print(f"CONFORMANCE-DRIFT property={pid} loop-head recorder of _constrain_ages: {last[:300]}")
+        return
     if r.returncode != 0:
         last = (r.stderr.strip().splitlines() or ["?"])[-1]
-        if "non-integer value" in last or "Error" in last or "Exception" in last:
-            ctx.violation(f"{pid}/looptrace/recorder-stopped", {"stderr": r.stderr[-600:]},
-                          "_constrain_ages under the loop-head recorder: " + last, subcheck="loop")
+        if "/tsdate/" in r.stderr and ("Error" in last or "Exception" in last):
+            ctx.violation(f"{pid}/looptrace/kernel-raised", {"stderr": r.stderr[-600:]},
+                          "_constrain_ages (JIT off) raised under the loop-head recorder: " + last, subcheck="loop")
             return
         raise harness.MachineryError("loop-head recorder failed: " + r.stderr[-1500:])
     cfg = ctx.write_cfg(f"{name}.cfg", spec="TraceSpec", constants=constants(**consts))
